@@ -116,7 +116,12 @@ template <typename T> typename std::enable_if<std::is_integral<T>::value && !std
 }
 #define P_TYPE(name, ...) std::printf("#define %s %s\n", name, vprobe::cname<__VA_ARGS__>())
 #define P_VAL(name, ...)  vprobe::pval(name, (__VA_ARGS__))
-#define P_TVAL(name, T, ...)  std::printf("#define %s ((%s)", name, vprobe::cname<T>()), vprobe::pval("", (__VA_ARGS__))
+template <typename T> void vprobe_tval(const char* n, T v){
+  if (std::is_floating_point<T>::value) std::printf("#define %s ((%s)%a)\n", n, vprobe::cname<T>(), (double)v);
+  else if (std::is_signed<T>::value) std::printf("#define %s ((%s)(%lldLL))\n", n, vprobe::cname<T>(), (long long)v);
+  else std::printf("#define %s ((%s)%lluULL)\n", n, vprobe::cname<T>(), (unsigned long long)v); }
+// typed constant: value printed with the C type the C++ expression has
+#define P_TVAL(name, ...)  vprobe_tval(name, (__VA_ARGS__))
 #define P_RAW(...) std::printf(__VA_ARGS__)
 '''
 
@@ -159,7 +164,7 @@ def instantiate(unit, inst, wd):
         f.write('/* generated by the binding probe (g++ on the real headers) for instantiation %s */\n' % iname)
         f.write(bind)
     # SEL_ macros from the probe choose among candidate extractions
-    sel = dict(re.findall(r'#define\s+(SEL_\w+)\s+(\d+)', bind))
+    sel = dict(re.findall(r'#define\s+(SEL_\w+)\s+\(?(\d+)', bind))
     text = unit.template
     extracted = []
     for x in unit.extracts:
